@@ -32,7 +32,7 @@ HERE = os.path.dirname(os.path.dirname(os.path.abspath(__file__)))
 sys.path.insert(0, HERE)
 sys.setrecursionlimit(10000)
 PINNED = 'd3c4189'
-OUT = '/tmp/am'
+OUT = os.environ.get('AM_OUT', '/tmp/am')
 
 
 def anchor_ranges():
